@@ -63,6 +63,21 @@ impl RawSock {
 #[verifier::external_body] pub fn io_socket_clone(io: &ConnIo) -> SockArc { unimplemented!() }
 #[verifier::external_body] pub fn tx_clone(tx: &PacketTx) -> PacketTx { unimplemented!() }
 #[verifier::external_body] pub fn reader_abort(r: &mut ReaderHandle) { }
+// restart_reader_for: a reader task keeps running when its handle is merely DROPPED (tokio detaches it); only abort() stops it.
+// `X.handle.abort();` on an owned handle is modelled as `let X = reader_aborted(X);`, the end of the binding's scope as `reader_drop(X)`,
+// and installing a handle over an existing one (HashMap::insert returns and drops the old value) as a precondition of the insert.
+impl ReaderHandle { pub uninterp spec fn aborted(&self) -> bool; }
+#[verifier::external_body] pub fn reader_aborted(r: ReaderHandle) -> (a: ReaderHandle) ensures a.aborted() { r }
+#[verifier::external_body] pub fn reader_drop(r: ReaderHandle)
+    requires r.aborted(),  // @ob C08.conns.restart_reader_for.the_replaced_reader_task_is_aborted_not_detached
+{ }
+#[verifier::external_body] pub fn readers_remove(m: &mut HashMap<u64, ReaderHandle>, k: u64) -> (r: Option<ReaderHandle>)
+    ensures final(m)@ == old(m)@.remove(k), (r is Some) == old(m)@.contains_key(k),
+{ m.remove(&k) }
+#[verifier::external_body] pub fn readers_install(m: &mut HashMap<u64, ReaderHandle>, k: u64, v: ReaderHandle)
+    requires !old(m)@.contains_key(k),  // @ob C08.conns.restart_reader_for.no_reader_handle_is_overwritten_while_its_task_runs
+    ensures final(m)@ == old(m)@.insert(k, v),
+{ m.insert(k, v); }
 // HashSet<u64>
 #[verifier::external_body] pub struct IdSet { _p: () }
 impl IdSet {
@@ -202,6 +217,20 @@ def _fmt(ip_expr):
             return 'string_unknown()'
         return re.sub(r'format!\(\s*"([^"]*)"((?:\s*,\s*[^,()]+)*)\s*,?\s*\)', sub, text)
     return f
+
+
+def _reader_scope_end(text):
+    """drop elaboration for a ReaderHandle bound by `if let Some(X) = readers_remove(..) { .. }`: the binding dies at the end of the block."""
+    out = text
+    pos = 0
+    while True:
+        m = re.compile(r'if let Some\((\w+)\) = readers_remove\([^)]*\) \{').search(out, pos)
+        if not m:
+            return out
+        ob = m.end() - 1
+        cb = rules.match_bracket(out, ob, '{', '}')
+        out = out[:cb] + '    reader_drop(%s);\n    ' % m.group(1) + out[cb:]
+        pos = m.end()
 
 
 def build():
@@ -471,6 +500,16 @@ def build():
         }
     }"""),
                }))
+    u.add(u.fn(UP, 'restart_reader_for', sub='conns',
+               pre_rewrite=[('conn.label.clone()', 'string_clone(&conn.label)', 1), ('packet_tx.clone()', 'tx_clone(packet_tx)', 1),
+                            (re.compile(r'readers\.remove\(&([\w\.]+)\)'), r'readers_remove(readers, \1)', None),
+                            (re.compile(r'\b(\w+)\.handle\.abort\(\);'), r'let \1 = reader_aborted(\1);', None),
+                            (_reader_scope_end, None, None),
+                            (re.compile(r'readers\.insert\(\s*'), 'readers_install(readers, ', None)],
+               post_rewrite=[('readers: &mut HashMap<ConnectionId, ReaderHandle>', 'readers: &mut HashMap<u64, ReaderHandle>', 1), ('packet_tx: &UnboundedSender<UplinkPacket>', 'packet_tx: &PacketTx', 1),
+                             ('socket: Arc<BatchUdpSocket>', 'socket: SockArc', 1)],
+               ensures=[C('C08+C19.conns.restart_reader_for.the_link_has_a_reader_afterwards_and_other_links_keep_theirs',
+                          'final(readers)@.contains_key(conn.conn_id) && forall|k: u64| k != conn.conn_id ==> (#[trigger] final(readers)@.contains_key(k) == old(readers)@.contains_key(k))')]))
     def tag_lines(text, needle, tag):
         # the step proofs restate a loop clause for the new iteration: a failure there IS that clause failing
         return '\n'.join(ln + '  // @ob ' + tag if needle in ln and '@ob' not in ln else ln for ln in text.split('\n'))
